@@ -20,7 +20,7 @@ ASSUMPTIONS = [
 ]
 BUDGET = {"quick": 85, "thorough": 900}
 ROUNDS = {"thorough": 16}
-FLOORS = {"derivatives_compared": {"quick": 4000, "thorough": 40000}, "nonzero_derivatives": {"quick": 800, "thorough": 8000}, "densities": 30, "with_rescaling": 20, "switch_evaluations": {"quick": 4, "thorough": 16}, "scaled_up_rates": {"quick": 6, "thorough": 40}}
+FLOORS = {"derivatives_compared": {"quick": 4000, "thorough": 40000}, "nonzero_derivatives": {"quick": 800, "thorough": 8000}, "densities": 30, "with_rescaling": 20, "switch_evaluations": {"quick": 4, "thorough": 16}, "scaled_up_rates": {"quick": 6, "thorough": 40}, "evaluated_before_with_backward": {"quick": 8, "thorough": 60}, "evaluated_before_with_no_grad": {"quick": 8, "thorough": 60}}
 
 
 def cases(tier, seed):
@@ -147,6 +147,55 @@ def run_case(case):
     def value():
         return target().sum()
 
+    # history: the likelihood has been evaluated before at this point - once with a backward pass, or once without a graph (a logger,
+    # a sampler's accept step) - and since then everything but the substitution model has moved (new tensors for every other parameter; the
+    # parameters the rate matrix is built from are the very same objects - the library's caches keep the graph of whatever they hold, so
+    # all other parameters have to be renewed between two backward passes): what is back-propagated now are still the derivatives of
+    # the value returned now
+    hist = 0
+    sub_models = [o for o in dic.values() if hasattr(o, "q") and hasattr(o, "frequencies") and hasattr(o, "p_t")]
+    if e.startswith("like") and sub_models and case["seed"] % 3:
+        def qs_():
+            with torch.no_grad():
+                return [torch.cat([m.q().reshape(-1), m.frequencies.reshape(-1)]).clone() for m in sub_models]
+
+        q0_ = qs_()
+        q_params = set()
+        for pid in leaves:
+            keep_ = dic[pid].tensor
+            dic[pid].tensor = keep_.detach() * 1.003 + 1e-3
+            q1_ = qs_()
+            dic[pid].tensor = keep_
+            if any(a.shape != b.shape or bool((a - b).abs().max() > 0) for a, b in zip(q0_, q1_)):
+                q_params.add(pid)
+        for pid in leaves:
+            dic[pid].requires_grad = True
+        # (a parameter behind a transform is renewed as well: the transformed parameter keeps the graph of its own cached value)
+        behind = set()
+        for o in dic.values():
+            if type(o).__name__ in ("TransformedParameter", "ViewParameter", "CatParameter"):
+                behind.update(getattr(q_, "id", None) for q_ in o.parameters())
+        q_params = {pid for pid in q_params if pid not in behind}
+        if q_params and len(q_params) < len(leaves):
+            hist = case["seed"] % 3
+            try:
+                if hist == 1:
+                    v0 = value()
+                    if torch.isfinite(v0) and v0.requires_grad:
+                        v0.backward()
+                else:
+                    with torch.no_grad():
+                        value()
+            except (RuntimeError, NotImplementedError):
+                hist = 0  # (reported by the plain case of this density)
+            for pid in leaves:
+                if dic[pid].tensor.grad is not None:
+                    dic[pid].tensor.grad = None
+                if pid not in q_params:
+                    dic[pid].tensor = dic[pid].tensor.detach().clone()
+                    dic[pid].requires_grad = True
+            if hist:
+                C["evaluated_before_with_" + ("backward" if hist == 1 else "no_grad")] = 1
     val = value()
     if not torch.isfinite(val):
         return {"violations": V, "counters": C, "fingerprint": None, "sample": None}
@@ -158,7 +207,7 @@ def run_case(case):
             # needed for the backward pass, an operation without a derivative): no gradient at all
             import re
 
-            V.append(tt.viol("C12:backward-raises:%s:%s:%s" % (g["name"], e, type(ex).__name__), "%s/%s: back-propagating from the returned value raises %s: %s" % (g["name"], e, type(ex).__name__, re.sub(r"\s+", " ", str(ex))[:160]), case=case))
+            V.append(tt.viol("C12:backward-raises:%s:%s:%s%s" % (g["name"], e, type(ex).__name__, ":after-an-earlier-evaluation" if hist else ""), "%s/%s: back-propagating from the returned value%s raises %s: %s" % (g["name"], e, [" ", " (evaluated and back-propagated once before, then every parameter but those of the rate matrix was renewed)", " (evaluated once before under no_grad, then every parameter but those of the rate matrix was renewed)"][hist].rstrip(), type(ex).__name__, re.sub(r"\s+", " ", str(ex))[:160]), case=case))
             return {"violations": V, "counters": C, "fingerprint": None, "sample": None}
     grads = {pid: (None if dic[pid].grad is None else dic[pid].grad.detach().clone().numpy()) for pid in leaves}
     base = {pid: dic[pid].tensor.detach().clone() for pid in leaves}
